@@ -10,6 +10,7 @@ import Emboss.Lemmas.Lr1Fast
 import Emboss.Lemmas.Lr1Term
 import Emboss.Lemmas.Lr1GenValid
 import Emboss.Lemmas.Lr1TermCex
+import Emboss.Lemmas.Lr1EmbossRuns
 namespace Emboss.Lr1
 
 /-- **The compiled validator decides `Valid`.**  `validFast` (hash-set membership; what the
@@ -200,6 +201,10 @@ example : run exA 20 [⟨5, 0⟩, ⟨5, 1⟩] = .error none 2 3 [4, 5] := by dec
 -- end-of-input marker (code 0) is a syntax error at its own index, not "accept what came before"
 example : run exA 60 [⟨5, 0⟩, ⟨0, 1⟩, ⟨5, 2⟩] = .error none 1 3 [4, 5] := exRun3
 example : run exA 60 [⟨5, 0⟩, ⟨4, 1⟩, ⟨0, 2⟩] = .error none 2 4 [0] := exRun5
+-- tie (tables and results regenerated from generated/cached_parser.py and the real `Parser.parse` on every run,
+-- decided by the kernel): `run` on the rows of the shipped Emboss module / expression tables
+example := EmbossRuns.moduleRun0
+example := EmbossRuns.expressionRun0
 -- test: the example tables (regenerated from the real code) pass the termination analysis
 example : TermOK exA := by decide
 example : TermOK f10A := by decide
